@@ -125,6 +125,9 @@ def expand(eng, obj):
     elif p.decide(Struct.is_num(s)):
         v = Struct.numval(s)
         p.assume(v >= 0)
+        # valid string fact the solvers do not find by themselves: the
+        # decimal rendering of a non-negative integer is a canonical numeral
+        p.assume(z3.InRe(z3.IntToStr(v), CANON))
         data = SStr([('n', v)])
     else:
         p.assume(Struct.is_leaf(s))
